@@ -497,10 +497,10 @@ pub mod fasta {
                     && self.buf_reader.cap() == old(self).buf_reader.cap() && self.position.line == old(self).position.line
                     && self.state == old(self).state && self.buf_pos == old(self).buf_pos && self.search_pos == old(self).search_pos
                     && self.buf_reader.errs() == old(self).buf_reader.errs() && self.buf_reader.cap() >= 2
-                    && self.position.byte == self.base() && line_num <= self.base() && (self.b().len() > 0 ==> self.base() + self.b().len() <= self.f().len()),
-                [C01,C03,C04,C05,C17|fasta.first_byte.outer.skipped_blank_lines] self.base() <= self.f().len()
-                    && first_nonblank(self.f(), 0) == first_nonblank(self.f(), self.base())
-                    && line_num == count_lf(self.f(), self.base()),
+                    && self.position.byte == self.base() && (self.b().len() > 0 ==> self.base() + self.b().len() <= self.f().len()),
+                [C01,C03,C04|fasta.first_byte.outer.skipped_blank_lines] self.base() <= self.f().len()
+                    && first_nonblank(self.f(), 0) == first_nonblank(self.f(), self.base()),
+                [C03,C05,C17|fasta.first_byte.outer.line_count] line_num == count_lf(self.f(), self.base()) && line_num <= self.base(),
                 [C01,C03,C04|fasta.first_byte.outer.leftover_is_blank] old(self).fresh() ==> self.b().len() <= 1 && blank(self.b()) && nl(self.b(), 0) == self.b().len(),
             decreases
                 (if self.base() + self.b().len() <= self.f().len() { self.f().len() - self.base() - self.b().len() } else { 0 }),
@@ -518,25 +518,27 @@ pub mod fasta {
                 decides_eq(split_pred(&vx_sp), 10u8),
                 !split_done(&vx_sp) ==> pos <= self.b().len() && split_rest(&vx_sp) == self.b().subrange(pos as int, self.b().len() as int),
                 split_done(&vx_sp) ==> pos == self.b().len() + 1 && last_line_len <= self.b().len(),
-                [C01,C03,C04,C05,C17|fasta.first_byte.inner.skipped_blank_lines] ({
-                    &&& (!split_done(&vx_sp) ==> first_nonblank(self.f(), 0) == first_nonblank(self.f(), self.base() + pos)
-                            && line_num == count_lf(self.f(), self.base() + pos))
+                [C01,C03,C04|fasta.first_byte.inner.skipped_blank_lines] ({
+                    &&& (!split_done(&vx_sp) ==> first_nonblank(self.f(), 0) == first_nonblank(self.f(), self.base() + pos))
                     &&& (split_done(&vx_sp) ==> ({
                             let lp = self.b().len() - last_line_len;
                             &&& first_nonblank(self.f(), 0) == first_nonblank(self.f(), self.base() + lp)
-                            &&& line_num == count_lf(self.f(), self.base() + lp) + 1
                             &&& nl(self.b(), lp) == self.b().len() && blank(self.b().subrange(lp, self.b().len() as int))
                         }))
+                }),
+                [C03,C05,C17|fasta.first_byte.inner.line_count] ({
+                    &&& (!split_done(&vx_sp) ==> line_num == count_lf(self.f(), self.base() + pos))
+                    &&& (split_done(&vx_sp) ==> line_num == count_lf(self.f(), self.base() + self.b().len() - last_line_len) + 1)
                 }),
             ensures
                 pos == self.b().len() + 1 && last_line_len <= self.b().len() && 1 <= line_num
                     && line_num <= self.base() + self.b().len() - last_line_len + 1 && self.base() + self.b().len() <= self.f().len(),
-                [C01,C03,C04,C05,C17|fasta.first_byte.inner.exit] ({
+                [C01,C03,C04|fasta.first_byte.inner.exit] ({
                             let lp = self.b().len() - last_line_len;
                             &&& first_nonblank(self.f(), 0) == first_nonblank(self.f(), self.base() + lp)
-                            &&& line_num == count_lf(self.f(), self.base() + lp) + 1
                             &&& nl(self.b(), lp) == self.b().len() && blank(self.b().subrange(lp, self.b().len() as int))
                         }),
+                [C03,C05,C17|fasta.first_byte.inner.exit_line_count] line_num == count_lf(self.f(), self.base() + self.b().len() - last_line_len) + 1,
             decreases (if split_done(&vx_sp) { 0int } else { split_rest(&vx_sp).len() as int + 1 }),
 //---pre
             let ghost sr0 = split_rest(&vx_sp);
